@@ -310,11 +310,11 @@ func tokenStrings(c *explore.Ctx) {
 // ---- family: string sweeps (quote-search hand-over, whole-input flags)
 
 var contexts = []struct{ pre, post string }{
-	{"", ""},                       // bare string: input-wide flags describe only this string
-	{`["\\",`, `]`},                // a backslash elsewhere in the input
-	{"[\"\x7f\",", `]`},            // a non-printable byte elsewhere
+	{"", ""},                  // bare string: input-wide flags describe only this string
+	{`["\\",`, `]`},           // a backslash elsewhere in the input
+	{"[\"\x7f\",", `]`},       // a non-printable byte elsewhere
 	{`{"k":`, `,"é\n":null}`}, // both, after the string, as object member
-	{`   `, "\n"},                  // surrounding whitespace (trimmed before computing the flags)
+	{`   `, "\n"},             // surrounding whitespace (trimmed before computing the flags)
 }
 
 func stringSweep(c *explore.Ctx) {
